@@ -2,8 +2,8 @@ package props
 
 import (
 	"fmt"
-	"strings"
 	"strconv"
+	"strings"
 
 	"github.com/spf13/afero"
 
